@@ -1434,7 +1434,8 @@ int ex_command(char *ln)
 	} else {
 		ex_show("command nesting too deep");
 	}
-	lbuf_modified(xb);
+	if (!xgdep)		/* a global command is a single undo step */
+		lbuf_modified(xb);
 	return ret;
 }
 
